@@ -275,26 +275,38 @@ def type_shard(shard, rec, rng, tmp):
     g = gen.Gen(rng)
     prs = corpus.pairs()
     picks = []
+    tpm2bs = [t for t in cases.non_union_types() if t.startswith("TPM2B") and t != "TPM2B_ENCRYPTED_PARAM"]
+    others = [t for t in cases.non_union_types() if not t.startswith("TPM2B")]
     for i in range(shard["n"]):
-        r = rng.random()
-        if r < 0.4:
-            _f, c, rsp = rng.choice(prs)
-            picks.append(rng.choice((c, rsp)))
-        elif r < 0.7:
+        k = (i + shard.get("start", 0)) % 5
+        if k == 0:
+            picks.append(rng.choice(prs)[1])  # captured command
+        elif k == 1:
+            picks.append(rng.choice(prs)[2])  # captured response
+        elif k == 2:
+            picks.append(g.build(rng.choice(tpm2bs))[0])  # a size-prefixed value (listed under several TPM2B types)
+        elif k == 3:
             (cb, _e, _i), (rb, _e2, _i2) = g.pair(rng.choice(gen.ccs()))
             picks.append(rng.choice((cb, rb)))
         else:
-            tn = rng.choice(cases.non_union_types())
-            picks.append(g.build(tn)[0] if tn != "TPM2B_ENCRYPTED_PARAM" else b"\x00\x00")
+            picks.append(g.build(rng.choice(others))[0])
     for i, data in enumerate(picks):
-        p = write(tmp, f"ty{i}.bin", data)
-        rc, so, se = cli(["type", "--in", "binary", p])
+        fmt = ("binary", "hex", "auto-hex")[(i + shard.get("start", 0)) % 3]
+        if fmt == "binary" or not data:
+            fmt = "binary"
+            p = write(tmp, f"ty{i}.bin", data)
+            args = ["type", "--in", "binary", p]
+        else:
+            p = write(tmp, f"ty{i}.hex", c15.hex_render(data, rng, lead=False, split_first=False)[0])
+            args = ["type", "--in", "hex", p] if fmt == "hex" else ["type", p]
+        rec.count(f"type_in_{fmt}")
+        rc, so, se = cli(args)
         want, unspecified = expected_type_listing(data)
         got = [l.strip() for l in so.splitlines() if l.strip()]
         rec.case(("type", len(want), rc), nontrivial=True)
         rec.count("type_runs")
         rec.count("type_entries_expected", len(want))
-        rp = dict(kind="type", container=data.hex())
+        rp = dict(kind="type", container=data.hex(), fmt=fmt)
         if rc != 0 or "Traceback" in se:
             last = [l for l in se.strip().splitlines() if l.strip()][-1] if se.strip() else ""
             m = re.search(r'File ".*/tpmstream/([^"]+)", line \d+, in (\w+)\n[^\n]*\n(\w+)', se[::-1][::-1])
@@ -305,7 +317,7 @@ def type_shard(shard, rec, rng, tmp):
         miss = sorted((set(want) - set(got)))
         extra = sorted(set(got) - set(want) - set(unspecified))
         if miss or extra:
-            rec.violation("type-listing", "missing" if miss else "extra", f"tpmstream type on {data.hex()[:120]}: missing {miss[:5]} extra {extra[:5]}", rp)
+            rec.violation("type-listing", ("missing" if miss else "extra") + ":" + fmt, f"tpmstream {' '.join(args[:-1])} on {data.hex()[:120]}: missing {miss[:5]} extra {extra[:5]}", rp)
         if len(got) != len(set(got)):
             rec.violation("type-listing", "duplicate", f"tpmstream type lists an entry twice: {got[:10]}", rp)
 
@@ -410,10 +422,18 @@ def replay(r, rec):
             check_refused(rec, r["args"], r["label"], r["needle"])
         elif k == "type":
             data = bytes.fromhex(r["container"])
-            p = write(tmp, "replay.bin", data)
-            rc, so, se = cli(["type", "--in", "binary", p])
+            if r.get("fmt", "binary") == "binary":
+                args = ["type", "--in", "binary", write(tmp, "replay.bin", data)]
+            else:
+                p = write(tmp, "replay.hex", data.hex().encode())
+                args = ["type", "--in", "hex", p] if r["fmt"] == "hex" else ["type", p]
+            rc, so, se = cli(args)
+            want, unspecified = expected_type_listing(data)
+            got = [l.strip() for l in so.splitlines() if l.strip()]
             if rc != 0:
                 rec.violation("type-crash", "replay", se[-400:], r)
+            elif set(want) - set(got) or set(got) - set(want) - set(unspecified):
+                rec.violation("type-listing", "replay", f"missing {sorted(set(want) - set(got))[:5]} extra {sorted(set(got) - set(want) - set(unspecified))[:5]}", r)
         elif k == "example":
             example_shard(dict(items=[r["name"] if r["name"] not in layout.pinned()["command_codes"] else layout.pinned()["command_codes"][r["name"]]]), rec, random.Random(0), tmp)
     finally:
